@@ -78,7 +78,24 @@ pub enum Case {
         temp: bool,
     },
     Stream { family: AddrFamily, direct: bool, payload: u16, send_flags: u8, recv_peek: bool, recv_waitall: bool, vectored: u8, shutdown: u8, name_len: u8 },
-    Dgram { family: AddrFamily, payload: u16, vectored: u8, name_len: u8 },
+    Dgram {
+        family: AddrFamily,
+        payload: u16,
+        vectored: u8,
+        name_len: u8,
+        /// A receive with MSG_PEEK first (builder `.flags(..)` of 1: recv_from,
+        /// 2: recv_from_vectored, 3: recv_vectored, 4: recv); 0: none.
+        #[serde(default)]
+        peek: u8,
+        /// The final receive is recv_from_vectored.
+        #[serde(default)]
+        final_vectored: bool,
+        /// The vectored send is zero-copy / carries MSG_DONTROUTE.
+        #[serde(default)]
+        zc: bool,
+        #[serde(default)]
+        dontroute: bool,
+    },
     SockOpt { which: u8, value: u32, tcp: bool },
     Pipe { direct_flag: bool, payload: u16, kind_direct: bool },
     Socket { domain: u8, ty: u8, direct: bool },
@@ -248,7 +265,7 @@ impl Property for C13 {
             1 => (any::<bool>(), any::<bool>(), any::<bool>(), proptest::option::of(0u16..0o1000), any::<bool>()).prop_map(|(read, write, write_only, mode, direct)| Case::Open { read, write, write_only, append: false, truncate: false, create: false, create_new: false, sync: 0, mode, target: 2, direct, temp: true }),
             5 => (family(), any::<bool>(), 1u16..5000, any::<u8>(), any::<bool>(), any::<bool>(), 0u8..5, 0u8..4, 1u8..100)
                 .prop_map(|(family, direct, payload, send_flags, recv_peek, recv_waitall, vectored, shutdown, name_len)| Case::Stream { family, direct, payload, send_flags, recv_peek, recv_waitall, vectored, shutdown, name_len }),
-            3 => (family(), 1u16..2000, 0u8..5, 1u8..100).prop_map(|(family, payload, vectored, name_len)| Case::Dgram { family, payload, vectored, name_len }),
+            4 => (family(), 1u16..2000, 0u8..5, 1u8..100, 0u8..5, any::<bool>(), any::<bool>(), any::<bool>()).prop_map(|(family, payload, vectored, name_len, peek, final_vectored, zc, dontroute)| Case::Dgram { family, payload, vectored, name_len, peek, final_vectored, zc, dontroute }),
             3 => (0u8..16, any::<u32>(), any::<bool>()).prop_map(|(which, value, tcp)| Case::SockOpt { which, value, tcp }),
             2 => (any::<bool>(), 1u16..3000, any::<bool>()).prop_map(|(direct_flag, payload, kind_direct)| Case::Pipe { direct_flag, payload, kind_direct }),
             2 => (0u8..3, 0u8..3, any::<bool>()).prop_map(|(domain, ty, direct)| Case::Socket { domain, ty, direct }),
@@ -1147,7 +1164,10 @@ fn run_stream(real: &mut Real, case: &Case, classes: &mut Vec<&'static str>) -> 
 }
 
 fn run_dgram(real: &mut Real, case: &Case, classes: &mut Vec<&'static str>) -> Result<(), String> {
-    let Case::Dgram { family, payload, vectored, name_len } = case else { unreachable!() };
+    let Case::Dgram { family, payload, vectored, name_len, peek, final_vectored, zc, dontroute } = case else { unreachable!() };
+    // (Zero copy is a property of the socket type: Unix sockets answer
+    // EOPNOTSUPP, which has no counterpart in sendto(2); IP only.)
+    let (peek, final_vectored, zc, dontroute) = (*peek, *final_vectored, *zc && !matches!(family, AddrFamily::UnixPath | AddrFamily::UnixAbstract), *dontroute);
     let scratch = Scratch::new("dgram");
     let unix = matches!(family, AddrFamily::UnixPath | AddrFamily::UnixAbstract);
     if unix {
@@ -1199,7 +1219,15 @@ fn run_dgram(real: &mut Real, case: &Case, classes: &mut Vec<&'static str>) -> R
         if nvec >= 2 {
             classes.push("vectored");
             let half = data.len() / 2;
-            real.block_on(sa.send_to_vectored([data[..half].to_vec(), data[half..].to_vec()], dest.clone()))?
+            let mut f = sa.send_to_vectored([data[..half].to_vec(), data[half..].to_vec()], dest.clone());
+            if zc {
+                classes.push("sendmsg-zc");
+                f = f.zc();
+            }
+            if dontroute {
+                f = f.flags(SendFlag::DONT_ROUTE);
+            }
+            real.block_on(f)?
         } else {
             real.block_on(sa.send_to(data.clone(), dest.clone()))?
         }
@@ -1208,7 +1236,15 @@ fn run_dgram(real: &mut Real, case: &Case, classes: &mut Vec<&'static str>) -> R
         if nvec >= 2 {
             classes.push("vectored");
             let half = data.len() / 2;
-            real.block_on(sa.send_to_vectored([data[..half].to_vec(), data[half..].to_vec()], dest))?
+            let mut f = sa.send_to_vectored([data[..half].to_vec(), data[half..].to_vec()], dest);
+            if zc {
+                classes.push("sendmsg-zc");
+                f = f.zc();
+            }
+            if dontroute {
+                f = f.flags(SendFlag::DONT_ROUTE);
+            }
+            real.block_on(f)?
         } else {
             real.block_on(sa.send_to(data.clone(), dest))?
         }
@@ -1216,21 +1252,83 @@ fn run_dgram(real: &mut Real, case: &Case, classes: &mut Vec<&'static str>) -> R
     let n = if unix {
         let AnyAddr::Unix(dest, _) = &addrs[2] else { unreachable!() };
         let (st, len) = unix_raw(dest);
-        unsafe { libc::sendto(sb.as_raw_fd(), data.as_ptr().cast(), data.len(), libc::MSG_NOSIGNAL, (&raw const st).cast(), len) }
+        unsafe { libc::sendto(sb.as_raw_fd(), data.as_ptr().cast(), data.len(), libc::MSG_NOSIGNAL | if dontroute && nvec >= 2 { libc::MSG_DONTROUTE } else { 0 }, (&raw const st).cast(), len) }
     } else {
         let dest: std::net::SocketAddr = dest_b.parse().map_err(|_| "infra:addr".to_string())?;
         let (st, len) = ip_raw(&dest);
-        unsafe { libc::sendto(sb.as_raw_fd(), data.as_ptr().cast(), data.len(), libc::MSG_NOSIGNAL, (&raw const st).cast(), len) }
+        unsafe { libc::sendto(sb.as_raw_fd(), data.as_ptr().cast(), data.len(), libc::MSG_NOSIGNAL | if dontroute && nvec >= 2 { libc::MSG_DONTROUTE } else { 0 }, (&raw const st).cast(), len) }
     };
     same_outcome("send_to", &a_sent, &if n < 0 { Err(last_err()) } else { Ok(n as usize) })?;
-    // recv_from: payload and source address.
-    let (got, from_a): (Vec<u8>, String) = if unix {
-        let (b, a, _) = real.block_on(ra.recv_from::<_, std::os::unix::net::SocketAddr>(Vec::with_capacity(data.len() + 16)))?.map_err(|e| format!("failure-vs-success:recv_from: {e}"))?;
-        (b, unix_desc(&a))
-    } else {
-        let (b, a, _) = real.block_on(ra.recv_from::<_, std::net::SocketAddr>(Vec::with_capacity(data.len() + 16)))?.map_err(|e| format!("failure-vs-success:recv_from: {e}"))?;
-        (b, a.to_string())
-    };
+    // Optionally look at the datagram first (MSG_PEEK set through the
+    // builder of one of the four receive forms): same payload, same sender,
+    // and the datagram stays queued.
+    fn receive<A: a10::net::SocketAddress + 'static>(real: &mut Real, ra: &AsyncFd, form: u8, peek: bool, cap: usize, show: fn(&A) -> String) -> Result<(Vec<u8>, Option<String>), String> {
+        let what = ["", "recv_from", "recv_from_vectored", "recv_vectored", "recv"][form as usize];
+        let fl = |e: io::Error| format!("failure-vs-success:{what}{}: {e}", if peek { "(PEEK)" } else { "" });
+        Ok(match form {
+            1 => {
+                let mut f = ra.recv_from::<_, A>(Vec::with_capacity(cap));
+                if peek {
+                    f = f.flags(RecvFlag::PEEK);
+                }
+                let (b, a, _) = real.block_on_for(f, 400)?.map_err(fl)?;
+                (b, Some(show(&a)))
+            }
+            2 => {
+                let mut f = ra.recv_from_vectored::<_, A, 2>([Vec::with_capacity(cap / 2 + 1), Vec::with_capacity(cap)]);
+                if peek {
+                    f = f.flags(RecvFlag::PEEK);
+                }
+                let ([x, y], a, _) = real.block_on_for(f, 400)?.map_err(fl)?;
+                ([x, y].concat(), Some(show(&a)))
+            }
+            3 => {
+                let mut f = ra.recv_vectored([Vec::with_capacity(cap / 2 + 1), Vec::with_capacity(cap)]);
+                if peek {
+                    f = f.flags(RecvFlag::PEEK);
+                }
+                let ([x, y], _) = real.block_on_for(f, 400)?.map_err(fl)?;
+                ([x, y].concat(), None)
+            }
+            _ => {
+                let mut f = ra.recv(Vec::with_capacity(cap));
+                if peek {
+                    f = f.flags(RecvFlag::PEEK);
+                }
+                (real.block_on_for(f, 400)?.map_err(fl)?, None)
+            }
+        })
+    }
+    fn show_unix(a: &std::os::unix::net::SocketAddr) -> String {
+        unix_desc(a)
+    }
+    fn show_ip(a: &std::net::SocketAddr) -> String {
+        a.to_string()
+    }
+    let cap = data.len() + 16;
+    if peek != 0 && a_sent.is_ok() {
+        classes.push("peek-first");
+        let (b, from) = if unix { receive::<std::os::unix::net::SocketAddr>(real, &ra, peek, true, cap, show_unix)? } else { receive::<std::net::SocketAddr>(real, &ra, peek, true, cap, show_ip)? };
+        if b != data {
+            return Err(format!("payload:dgram-peek: the receive with MSG_PEEK (form {peek}) returned {} bytes, {} were sent, or contents differ", b.len(), data.len()));
+        }
+        if let Some(from) = from {
+            if from != src_a {
+                return Err(format!("address:recv_from(PEEK): a10 reports the sender as {from}, getsockname(2) on the sender says {src_a}"));
+            }
+        }
+        let left = unread(ra_fd);
+        if left <= 0 {
+            return Err(format!("unread-bytes:dgram-peek: after a receive with MSG_PEEK set through the builder (form {peek}) nothing is left to read: the flag did not reach the kernel"));
+        }
+    }
+    // recv_from (or recv_from_vectored): payload and source address.
+    let form = if final_vectored { 2 } else { 1 };
+    if final_vectored {
+        classes.push("recv_from_vectored");
+    }
+    let (got, from_a) = if unix { receive::<std::os::unix::net::SocketAddr>(real, &ra, form, false, cap, show_unix)? } else { receive::<std::net::SocketAddr>(real, &ra, form, false, cap, show_ip)? };
+    let from_a = from_a.unwrap_or_default();
     let mut bb = vec![0u8; data.len() + 16];
     let mut st: libc::sockaddr_storage = unsafe { std::mem::zeroed() };
     let mut len = size_of::<libc::sockaddr_storage>() as u32;
